@@ -38,11 +38,46 @@ def apply_variant(sources, v):
     return out
 
 
+def patched_sources(patch):
+    """Sources of the current tree with a unified diff applied (scratch copy under the system temp dir, removed at once);
+    None if the patch does not apply to the current tree."""
+    import shutil
+    import subprocess
+    import tempfile
+    from .model import REPO
+    tmp = tempfile.mkdtemp(prefix="vp_neutral_")
+    try:
+        shutil.copytree(os.path.join(REPO, "src"), os.path.join(tmp, "src"),
+                        ignore=shutil.ignore_patterns("test", "tests", "__pycache__", "*.pyc", "*.egg-info"))
+        r = subprocess.run(["git", "apply", "--whitespace=nowarn", patch], cwd=tmp, capture_output=True, text=True)
+        if r.returncode != 0:
+            return None
+        return load_sources(tmp)
+    finally:
+        shutil.rmtree(tmp, ignore_errors=True)
+
+
+def neutral_variants():
+    """The behaviour-preserving refactorings kept under neutral/ (written by independent sub-agents, each confirmed against
+    the real code): every property's rules must stay silent on every one of them."""
+    base = os.path.join(os.path.dirname(os.path.dirname(os.path.abspath(__file__))), "neutral")
+    out = []
+    if os.path.isdir(base):
+        for d in sorted(os.listdir(base)):
+            pth = os.path.join(base, d, "patch.diff")
+            if os.path.exists(pth):
+                out.append({"name": "neutral/%s (refactoring by a sub-agent)" % d, "kind": "N", "props": None, "patch": pth, "expect": {}})
+    return out
+
+
 def _run_one(args):
     prop, v, baseline_keys = args
     from .engine import Analysis
-    sources = load_sources()
-    src = apply_variant(sources, v)
+    if "patch" in v:
+        src = patched_sources(v["patch"])
+    else:
+        sources = load_sources()
+        src = apply_variant(sources, v)
     if src is None:
         return (v["name"], "skipped", [])
     mod = importlib.import_module("sa.rules." + prop.lower())
@@ -63,7 +98,7 @@ def _run_one(args):
 
 def run_for(prop, mod, baseline_findings=None, jobs=None):
     corpus_mod = importlib.import_module("sa.corpus")
-    variants = [v for v in corpus_mod.VARIANTS if prop in v["props"]]
+    variants = [v for v in corpus_mod.VARIANTS if prop in v["props"]] + neutral_variants()
     known = {(k["rule"], k["construct"]) for k in load_known() if k.get("property") == prop and k.get("status") == "known"}
     baseline = sorted({(f.rule, f.construct) for f in (baseline_findings or [])})
     unlisted_baseline = [b for b in baseline if b not in known]
